@@ -285,6 +285,34 @@ TS_POINTS = [0, 1, 59, 60, 86399, 86400, 2**31 - 1, 2**31, 2**31 + 1,
 OFFSETS = [0, 60, -60, 330, 345, -570, 840, -720, 765, 1, -1439, 1439]
 
 
+class ReentrantTZ(datetime.tzinfo):
+    """A legal tzinfo (UTC+2) whose utcoffset() itself uses the codec - the
+    way a tz database wrapper that logs over AMQP would."""
+    _busy = [False]
+
+    def utcoffset(self, d):
+        if not ReentrantTZ._busy[0]:
+            ReentrantTZ._busy[0] = True
+            try:
+                from pamqp import encode
+                encode.field_table({'tz': 'lookup', 'n': [1, 2, {'k': 70000}]})
+                encode.encode_table_value(['x', 1.5])
+            except Exception:
+                pass
+            finally:
+                ReentrantTZ._busy[0] = False
+        return datetime.timedelta(hours=2)
+
+    def dst(self, d):
+        return datetime.timedelta(0)
+
+    def tzname(self, d):
+        return 'RE+2'
+
+    def __repr__(self):
+        return 'ReentrantTZ()'
+
+
 def rinstant(rnd):
     if rnd.random() < _boost(0.06):
         v = _magic().rint(rnd, 0, 2**32 - 1)
@@ -309,6 +337,11 @@ def rdatetime(rnd, secs=None):
         off = rnd.choice(OFFSETS)
         tz = datetime.timezone(datetime.timedelta(minutes=off))
         dt = base.astimezone(tz)
+        if rnd.random() < 0.04:
+            # a tzinfo that re-enters the codec from utcoffset()
+            return base.astimezone(tz).replace(tzinfo=None).replace(
+                tzinfo=ReentrantTZ()) + (datetime.timedelta(hours=2)
+                                         - datetime.timedelta(minutes=off))
         if rnd.random() < 0.05:
             tz2 = datetime.timezone(datetime.timedelta(seconds=rnd.choice(
                 [1, -1, 3599, 37])))
